@@ -44,9 +44,11 @@ Theorem C20f_implicit_symbols : forall n sym p, In (AImplicit n sym p) Gen_C20f.
 Proof. exact (fun n sym p => implicit_symbol Gen_C20f.abi_table n sym p C20f_abi_table_checked). Qed.
 Print Assumptions C20f_implicit_symbols.
 
-(* the exception list is not vacuous: literal copies of two offending rows of the current code fail abi_ok *)
-Theorem C20f_known_rows_refuted : abi_ok witness_field_id = false /\ abi_ok witness_bcdataset_info_abi = false /\
-  arow_known witness_field_id = true /\ arow_known witness_bcdataset_info_abi = true.
+(* the exception list is not vacuous and not wider than stated: a literal copy of the one excused row of the current
+   code fails abi_ok; the row produced by an interface body whose link name has no C definition (cg_field_id_f before
+   6bd923b) fails abi_ok, is not excused, and makes the table obligation false *)
+Theorem C20f_known_rows_refuted : abi_ok witness_bcdataset_info_abi = false /\ arow_known witness_bcdataset_info_abi = true /\
+  abi_ok witness_field_id = false /\ arow_known witness_field_id = false /\ abi_table_ok [witness_field_id] = false.
 Proof. exact known_rows_refuted. Qed.
 Print Assumptions C20f_known_rows_refuted.
 
